@@ -88,7 +88,7 @@ def strategy_impl(draw, tier):
         edits = ["none"]
     # a drawn permutation first: sampled_from alone favours the first entries of the list
     edit = draw(st.permutations(edits))[0]
-    return {"scenario": sc, "call": idx, "edit": edit, "pick": draw(st.integers(0, 7))}
+    return {"scenario": sc, "call": idx, "edit": edit, "pick": draw(st.integers(0, 23))}
 
 
 @st.composite
@@ -400,12 +400,40 @@ def prepare(case):
         if edit == "bins-constant":
             vals = [vals[0]] * len(vals)
         else:
+            def strictly_monotonic(v):
+                return all(b > a for a, b in zip(v[:-1], v[1:])) or all(b < a for a, b in zip(v[:-1], v[1:]))
+
             if len(vals) < 3:
                 vals = vals + [vals[0]]
             else:
-                vals[1], vals[-1] = vals[-1], vals[1]
-                if all(b > a for a, b in zip(vals[:-1], vals[1:])) or all(b < a for a, b in zip(vals[:-1], vals[1:])):
-                    vals[1] = vals[0]
+                # several ways of not being monotonic: where the disorder sits (interior / at an end) and whether the first
+                # edge ends up below or above the last one are independent of the direction of the original bins
+                orig = list(vals)
+                how = k % 6
+                if how == 0:
+                    vals[1], vals[-1] = vals[-1], vals[1]
+                elif how == 1:
+                    i = 1 + (k // 6) % max(1, len(vals) - 2)
+                    j = min(i + 1, len(vals) - 1)
+                    vals[i], vals[j] = vals[j], vals[i]
+                elif how == 2:
+                    vals = vals[::-1]
+                    vals[1], vals[-1] = vals[-1], vals[1]
+                elif how == 3:
+                    m = max(range(len(vals)), key=lambda q: vals[q])
+                    vals = [vals[m]] + vals[:m] + vals[m + 1:]
+                    if m == 0:
+                        vals = vals[1:] + vals[:1]
+                elif how == 4:
+                    i = 1 + (k // 6) % max(1, len(vals) - 2)
+                    vals[i] = vals[i - 1]
+                else:
+                    vals[0], vals[-1] = vals[-1], vals[0]
+                if strictly_monotonic(vals):
+                    vals = list(orig)
+                    vals[1], vals[-1] = vals[-1], vals[1]
+                    if strictly_monotonic(vals):
+                        vals[1] = vals[0]
         if isinstance(t, dict):
             c["target"] = dict(t, values=vals)
         else:
